@@ -14,8 +14,9 @@ use tokio::io::{AsyncReadExt, AsyncWriteExt};
 
 pub const METHODS: [&str; 4] = ["GET", "POST", "HEAD", "PUT"];
 pub const PATHS: [&str; 6] = ["/ws", "/ws/", "/WS", "/health", "/version", "/elsewhere"];
-/// header variants: 0 exact, 1 case-changed, 2 near-miss, 3 absent, 4 empty, 5 duplicated-identical
-pub const N_HVAR: u8 = 6;
+/// header variants: 0 exact, 1 case-changed, 2 near-miss, 3 absent, 4 empty, 5 duplicated-identical,
+/// 6 a comma list that contains the exact value (`keep-alive, upgrade`)
+pub const N_HVAR: u8 = 7;
 /// PSK header variants: 0 equal, 1 absent, 2 prefix, 3 case-variant, 4 padded, 5 another key over
 /// the same alphabet, 6 a key over the other alphabet
 pub const N_PSK: u8 = 7;
@@ -55,7 +56,9 @@ fn header_lines(name: &str, exact: &str, cased: &str, near: &str, v: u8) -> Stri
         2 => format!("{name}: {near}\r\n"),
         3 => String::new(),
         4 => format!("{name}:\r\n"),
-        _ => format!("{name}: {exact}\r\n{name}: {exact}\r\n"),
+        5 => format!("{name}: {exact}\r\n{name}: {exact}\r\n"),
+        // a list that contains the wanted value is not that value
+        _ => format!("{name}: keep-alive, {exact}\r\n"),
     }
 }
 pub fn build_request(p: &C14Plan, path: &str) -> String {
@@ -331,7 +334,7 @@ pub fn run(plan: &C14Plan, sched: &Sched) -> Outcome {
     let exp = expect(plan);
     let path = PATHS[(plan.path as usize) % 6];
     let desc = format!(
-        "{} {} (PSK configured: {}{}, obfs: {}, backend: {}), header variants [Connection, Upgrade, Version, Protocol, Key] = {:?} (0 exact, 1 case-changed, 2 near-miss, 3 absent, 4 empty, 5 duplicated), PSK header variant {} (0 equal, 1 absent, 2 prefix, 3 case, 4 padded, 5 another key, 6 a key over the other alphabet), fragments {:?} every {} ms -> {:?} / {:?}",
+        "{} {} (PSK configured: {}{}, obfs: {}, backend: {}), header variants [Connection, Upgrade, Version, Protocol, Key] = {:?} (0 exact, 1 case-changed, 2 near-miss, 3 absent, 4 empty, 5 duplicated, 6 list containing it), PSK header variant {} (0 equal, 1 absent, 2 prefix, 3 case, 4 padded, 5 another key, 6 a key over the other alphabet), fragments {:?} every {} ms -> {:?} / {:?}",
         METHODS[(plan.method as usize) % 4],
         path,
         plan.psk_on,
